@@ -204,6 +204,12 @@ class ReflectType:
 def freeze(x):
     if type(x) is list:
         return tuple([freeze(e) for e in x])
+    if type(x) is ClockList:
+        if x.ns is not None:
+            r = ClockTime([freeze(e) for e in x])
+            r.ns = x.ns
+            return r
+        return tuple([freeze(e) for e in x])
     return x
 
 
@@ -213,9 +219,18 @@ class ClockTime(tuple):
     ns = None
 
 
+class ClockList(list):
+    """in-memory form of a ClockTime; ns is dropped as soon as a component is overwritten"""
+    ns = None
+
+
 def thaw(x):
-    if type(x) is tuple or type(x) is ClockTime:
+    if type(x) is tuple:
         return [thaw(e) for e in x]
+    if type(x) is ClockTime:
+        r = ClockList([thaw(e) for e in x])
+        r.ns = x.ns
+        return r
     return x
 
 
